@@ -7,6 +7,7 @@ use crate::world::*;
 use serde::{Deserialize, Serialize};
 use serde_json::{json, Value};
 use std::collections::HashMap;
+use yrs::ReadTxn;
 use std::sync::atomic::{AtomicU64, Ordering};
 use std::sync::Arc;
 use yrs::{Transact, UndoManager};
@@ -142,6 +143,68 @@ fn check_rebuild(m: &Multi) -> Result<(), (String, String)> {
     Ok(())
 }
 
+/// A gc'd replica answers a state-vector request of a peer that knows only part of what it knows
+/// (the requester's clock may fall inside a collected, compacted run): the peer must end up exactly
+/// where one-by-one delivery of the same operations leads.
+fn check_sv_sync(m: &Multi) -> Result<(), (String, String)> {
+    for (asg, w) in &m.others {
+        for (si, src) in w.reps.iter().enumerate() {
+            if !src.cfg.gc {
+                continue;
+            }
+            for (di, dst) in w.reps.iter().enumerate() {
+                if di == si || src.known.is_subset(&dst.known) {
+                    continue;
+                }
+                for v2 in [false, true] {
+                    let f = Replica::new(RCfg { client: 60, gc: false, utf16: false, cleanup: false });
+                    let g = Replica::new(RCfg { client: 61, gc: false, utf16: false, cleanup: false });
+                    let mut ok = true;
+                    for i in &dst.known {
+                        ok &= f.apply(&w.pool[*i].v1, false).is_ok();
+                    }
+                    let union: std::collections::BTreeSet<usize> = src.known.union(&dst.known).copied().collect();
+                    for i in &union {
+                        ok &= g.apply(&w.pool[*i].v1, false).is_ok();
+                    }
+                    if !ok || f.pending() || g.pending() {
+                        continue;
+                    }
+                    let payload = {
+                        let txn = src.doc.transact();
+                        let sv = f.doc.transact().state_vector();
+                        if v2 {
+                            txn.encode_diff_v2(&sv)
+                        } else {
+                            txn.encode_diff_v1(&sv)
+                        }
+                    };
+                    f.apply(&payload, v2)
+                        .map_err(|e| ("sv-diff-of-gc-replica-not-appliable".to_string(), format!("gc {:?}: replica {} answering a peer that knows what replica {} knows (v2={}): {}", asg, si, di, v2, e)))?;
+                    if f.dump() != g.dump() || f.sv() != g.sv() || f.pending() {
+                        return Err((
+                            "sv-diff-of-gc-replica-differs".to_string(),
+                            format!(
+                                "gc {:?}: a peer with the knowledge of replica {} that applies replica {}'s answer to its state vector (v2={}) shows {} sv {:?} pending={}, one-by-one delivery of the same operations gives {} sv {:?}",
+                                asg,
+                                di,
+                                si,
+                                v2,
+                                show_model(&f.dump()),
+                                f.sv(),
+                                f.pending(),
+                                show_model(&g.dump()),
+                                g.sv()
+                            ),
+                        ));
+                    }
+                }
+            }
+        }
+    }
+    Ok(())
+}
+
 fn has_collected(w: &World) -> bool {
     w.reps.iter().any(|r| {
         r.cfg.gc
@@ -187,7 +250,7 @@ fn dfs(ctx: &mut Ctx, c: &Cfg15, trace: &mut Vec<Act>, nlocal: usize, visited: &
     let cj = || case.clone();
     let res = ctx.exec(&cj, |ctx| {
         ctx.count("transitions", trace.len() as u64 * (assignments(c.r).len() as u64 + 1));
-        build(c, trace).and_then(|m| check_rebuild(&m).map(|_| m))
+        build(c, trace).and_then(|m| check_rebuild(&m).map(|_| m)).and_then(|m| check_sv_sync(&m).map(|_| m))
     });
     let m = match res {
         Some(Ok(m)) => m,
